@@ -40,7 +40,8 @@ pub fn generic(case: &Case) -> Vec<Case> {
     // 1. drop a whole file
     let files = files_of(ops);
     let n_adds = ops.iter().filter(|o| matches!(o, WOp::Add { .. })).count();
-    if files.len() + n_adds > 1 {
+    // (with very many files the range drops of step 2 do this work: one full copy of the case per file is too much)
+    if files.len() + n_adds > 1 && files.len() + n_adds <= 64 {
         for f in &files {
             let mut c = case.clone();
             c.ops.retain(|o| !matches!(o, WOp::Start { f: g, .. } | WOp::Append { f: g, .. } | WOp::End { f: g } if g == f));
@@ -57,6 +58,45 @@ pub fn generic(case: &Case) -> Vec<Case> {
     // 2. drop appends / flushes / raw ops: whole ranges first when the history is long (halves, quarters, ... -
     // a candidate is a full copy of the case, so their number stays bounded), single ops when it is short
     let droppable = |o: &WOp| matches!(o, WOp::Append { .. } | WOp::Flush | WOp::AppendRaw { .. } | WOp::EndRaw { .. });
+    if files.len() + n_adds > 64 {
+        // whole files by ranges of handles / adds: keeps the history valid (a file goes with all its calls)
+        let mut ids: Vec<usize> = files.clone();
+        ids.sort();
+        let mut width = ids.len() / 2;
+        while width >= 8 && out.len() < 40 {
+            for part in ids.chunks(width) {
+                if out.len() >= 40 {
+                    break;
+                }
+                let (lo, hi) = (part[0], part[part.len() - 1]);
+                let mut c = case.clone();
+                c.ops.retain(|o| !matches!(o, WOp::Start { f: g, .. } | WOp::Append { f: g, .. } | WOp::End { f: g } if *g >= lo && *g <= hi));
+                out.push(c);
+            }
+            width /= 2;
+        }
+        // and adds by position ranges
+        let n = ops.len();
+        let mut width = n / 2;
+        while width >= 64 && out.len() < 60 {
+            let mut start = 0;
+            while start < n && out.len() < 60 {
+                let end = (start + width).min(n);
+                let mut c = case.clone();
+                let mut k = 0;
+                c.ops.retain(|o| {
+                    let inside = k >= start && k < end;
+                    k += 1;
+                    !(inside && matches!(o, WOp::Add { .. }))
+                });
+                if c.ops.len() < n {
+                    out.push(c);
+                }
+                start = end;
+            }
+            width /= 2;
+        }
+    }
     if ops.len() > 64 {
         let mut width = ops.len() / 2;
         while width >= 16 && out.len() < 48 {
